@@ -4,6 +4,7 @@ import AcryoVerif.Model.Search
 import AcryoVerif.Model.Wedge
 import AcryoVerif.Model.Lowpass
 import AcryoVerif.Gen.Align
+import AcryoVerif.Model.Landscape
 
 /-! Dispatch of hand-written model operations for the line-protocol driver. -/
 namespace Model
@@ -101,6 +102,15 @@ def opZnccShape (a : Array Rat) : String :=
   let c0 := [0, 1, 2].map fun k => (2 * Gen.paddingWidth a[k]! - 1) - 2 * Gen.padWidthEff0 a[k]! (2 * Gen.paddingWidth a[k]! - 1)
   " ".intercalate ((full ++ c1 ++ c0).map Canon.canon)
 
+/-- `landscape zncc n0 n1 n2 m0 m1 m2 a... b...` → `num den2` per cropped landscape entry. -/
+def opLandscape (a : Array Rat) : String :=
+  let n0 := (i a 1).toNat; let n1 := (i a 2).toNat; let n2 := (i a 3).toNat
+  let v := n0 * n1 * n2
+  let img0 : Img := ⟨n0, n1, n2, a.extract 7 (7 + v)⟩
+  let img1 : Img := ⟨n0, n1, n2, a.extract (7 + v) (7 + 2 * v)⟩
+  let l := landscapeCropped (a[0]! ≠ 0) img0 img1 (a[4]!, a[5]!, a[6]!)
+  " ".intercalate (l.map fun p => Canon.canon p.1 ++ " " ++ Canon.canon p.2)
+
 def dispatch (name : String) (a : Array Rat) : Option String :=
   match name with
   | "prepAffine" => some (flat (opPrepAffine a))
@@ -122,6 +132,7 @@ def dispatch (name : String) (a : Array Rat) : Option String :=
   | "mesh" => some (opMesh a)
   | "pccCrop" => some (opPccCrop a)
   | "znccShape" => some (opZnccShape a)
+  | "landscape" => some (opLandscape a)
   | _ => none
 
 end Model
